@@ -54,6 +54,22 @@ def r1_containment(chk):
             chk.ob('C07.R1', key, not raises, where(r.mod, call),
                    'covering handler re-raises at line %s' % raises[0].lineno if raises else '')
     chk.floor('C07.R1', 8, 'getData x2, parse, symtable genCode, genCode, fileExists x2, putData')
+    # handlers of the source try: only the not-found class may go on silently; every other handler must record the
+    # failure (FAILED[name] = exc and a failed status), whatever package error class it catches
+    src_gets = [c for c in r.calls.get('getData', []) if cr.loop_over_self_attr(r.fn, norm(c.func.value)) == '_sources']
+    for c in src_gets:
+        st = cr.stmt_of(c, r.fn)
+        for t in enclosing_trys(st, r.fn)[:1]:
+            for h in t.handlers:
+                names = cr.handler_type_names(chk.model, r.mod, h)
+                if names == ['PySmiReaderFileNotFoundError']:
+                    continue
+                stores = [cr.subscript_store(s) for s in walk_no_nested(h) if cr.subscript_store(s)]
+                rec = any(s[0] == r.failed for s in stores) and any(
+                    s[0] == r.result and cr.status_of(s[2], r.status_consts) == 'failed' for s in stores)
+                chk.ob('C07.R1', 'compile/source-handler(%s)-records-failure' % '+'.join(names), rec, where(r.mod, h),
+                       'a source error of class %s ends the search for the module without recording a failure: the '
+                       'module is neither compiled nor failed, and the abort guard does not see it' % names)
 
 
 def ordinal(r, meth, call):
@@ -112,9 +128,23 @@ def r3_status_values(chk):
     # MibStatus.setOptions returns a copy with attributes set
     ci = chk.model.cls(cr.COMPILER, 'MibStatus')
     owner, so = ci.find_method('setOptions')
-    ok = so is not None and any(isinstance(x, ast.Return) and isinstance(x.value, ast.Name) for x in ast.walk(so)) \
-        and any(isinstance(x, ast.Call) and dotted_name(x.func) == 'setattr' for x in ast.walk(so))
-    chk.ob('C07.R3', 'MibStatus.setOptions', ok, r.mod.rel, 'setOptions must return a status copy with attributes set')
+    ok = False
+    detail = 'setOptions must return a *copy* of the status with the attributes set'
+    if so is not None:
+        news = [s for s in so.body if isinstance(s, ast.Assign) and isinstance(s.targets[0], ast.Name) and
+                isinstance(s.value, ast.Call) and norm(s.value) in ('self.__class__(self)', 'MibStatus(self)',
+                                                                    'type(self)(self)', 'copy.copy(self)')]
+        if news:
+            nv = news[0].targets[0].id
+            sets = [c for c in ast.walk(so) if isinstance(c, ast.Call) and dotted_name(c.func) == 'setattr']
+            rets = [x for x in ast.walk(so) if isinstance(x, ast.Return)]
+            on_self = [c for c in sets if c.args and _key_is(c.args[0], 'self')]
+            ok = bool(sets) and all(c.args and _key_is(c.args[0], nv) for c in sets) and len(rets) == 1 and \
+                _key_is(rets[0].value, nv) and not on_self
+        else:
+            detail = 'setOptions annotates and returns the shared status constant itself: every module with that ' \
+                     'status then carries the attributes (error, path, oids) of the last one'
+    chk.ob('C07.R3', 'MibStatus.setOptions', ok, r.mod.rel, detail)
 
 
 def _key_is(node, name):
